@@ -53,6 +53,13 @@ def rule1_once(ctx, v):
         again = [(a, b) for a in frees for b in frees if b in f.reachable_from(a)]
         ctx.ob('C13.1', name + ': at most one release per call', not again,
                'no release is reachable from a release (no double free of the record)', loc=(again[0][1].loc if again else f.loc))
+        from .c02 import env_origin_ok
+        thp = f.param_named('th') or 'a0'
+        for fr in frees:
+            ok_env, why = env_origin_ok(f, fr.args[0])
+            ctx.ob('C13.1', name + ': record released to the executing worker\'s free list', ok_env and same_value(f, fr.args[1], thp),
+                   'free_myth_thread_struct_desc(env, th) with env the current worker (the free lists are unsynchronised and per worker) and '
+                   'th the thread being reaped', loc=fr.loc, detail=why)
         la = LockAnalysis(f)
         for val, anchor in ret_cases(f):
             c = const_int(val)
@@ -283,6 +290,8 @@ def run(ctx):
 SCHED = 'src/myth_sched_func.h'
 WRAP = 'src/myth_wrap_pthread.c'
 MUTANTS = [
+    {'name': 'tryjoin releases the record to an unset env (sweep M0603)', 'expect': 'C13.1',
+     'edits': [(SCHED, "  myth_running_env_t env;\n  env = myth_get_current_env();\n  //Obtain lock and check again", "  myth_running_env_t env;\n  //Obtain lock and check again")]},
     {'name': 'tryjoin frees the record on the busy path', 'expect': 'C13.1',
      'edits': [(SCHED, "    myth_spin_unlock_body(&th->lock);\n    return EBUSY;", "    myth_spin_unlock_body(&th->lock);\n    free_myth_thread_struct_desc(env,th);\n    return EBUSY;")]},
     {'name': 'tryjoin returns busy with the lock held', 'expect': 'C13.1',
